@@ -167,7 +167,6 @@ STANDINS = r"""
 // A timestamp of either timer; only differences between timestamps are observable.
 #[verifier::external_body] #[derive(Clone, Copy)] pub struct Timestamp { _p: core::marker::PhantomData<()> }
 
-pub const DEFAULT_SAMPLE_COUNT: u32 = 100;
 pub const KNOWN_COUNTER_KIND_COUNT: usize = 4;
 
 // Elapsed picoseconds between two timestamps of timer `t` (uninterpreted here; C11 proves
@@ -323,6 +322,8 @@ def loop_sections(S: Sources, loop_invariant: list, inserts: list, spec_text: st
     tm = S(TIMER)
     cf = S(CONFIG)
     secs = type_sections(S)
+    # the default sample count is the repository's constant (the statement says 100: n_of in the spec)
+    secs.append(code_item(b, b.find_item("const", "DEFAULT_SAMPLE_COUNT")))
     secs.append(ghost("loop stand-ins and assumed contracts", STANDINS, kind="trusted"))
     secs.append(ghost("assumed option accessors", ACCESSORS, kind="trusted"))
     secs.append(ghost("loop spec", spec_text))
